@@ -29,7 +29,7 @@ structure GState where
   closed : Bool := false
   g : Grammar := {}
   oracle : Option (Std.HashSet (List Tok)) := none
-  dynO : Option (List (List Tok × Int)) := none
+  dynO : Option (List DItem) := none
   opOK : Bool := true
   -- current case
   cid : String := ""
@@ -149,7 +149,11 @@ def runCase (s : GState) : String :=
           if !ties.isEmpty then "skip"      -- decided by ts_subtree_compare, not modelled
           else match diffS fb (flat tbl (ofDump d.root)) [] with
             | none => "ok"
-            | some m => s!"glr-tree:{m}"
+            | some m =>
+              -- the alternative runtime behaviour (root carries its own production's dynamic precedence)
+              match selectBest (parseAllCarry tbl symToks) with
+              | some b2 => if (diffS (flat tbl (ofPTree b2)) (flat tbl (ofDump d.root)) []).isNone then "ok" else s!"glr-tree:{m}"
+              | none => s!"glr-tree:{m}"
       | .fuelOut => "skip"
       | .fault f => if s.closed then s!"model-fault-on-closed-table:{repr f}" else "skip"
       | .rejected _ => if s.err then "ok" else "model-rejects-real-accepts"
@@ -212,11 +216,16 @@ def runCase (s : GState) : String :=
     match s.dynO, real with
     | some o, some d =>
       if s.isT && s.toks.length ≤ s.exh then
-        match maxDyn o wNoExtra with
-        | some m =>
-          let realDyn := d.root.data.dynamicPrecedence
-          if realDyn == m then none else some s!"dynamic-precedence-not-greatest(kept={realDyn},best={m})"
-        | none => none
+        let realDyn := d.root.data.dynamicPrecedence
+        match maxTotal o wNoExtra, keptTotal o wNoExtra realDyn with
+        | some best, some kept =>
+          if kept == best then none
+          else if maxDyn o wNoExtra == some realDyn then
+            -- greatest below the root, but not greatest once the start rule's own value counts
+            some s!"dynamic-precedence-of-the-start-rule-ignored(kept={kept},best={best})"
+          else some s!"dynamic-precedence-not-greatest(kept={kept},best={best})"
+        | some best, none => some s!"dynamic-precedence-not-greatest(kept={realDyn}?,best={best})"
+        | none, _ => none
       else none
     | _, _ => none
   let judge := judge ++ (match dynMsg with
